@@ -45,6 +45,12 @@ fn dedicated() -> Vec<Vec<Tok>> {
         // several compaction rounds then restart and flush
         vec![Fill, Fill, Compact, Compact, Fill, Fill, Compact, Restart, Fill, Compact],
         vec![Sa, Sb, Flush, Sa, Sb, Flush, Compact, Restart, Sa, Sb, Flush, Compact],
+        // segments that share event types only partly: a compaction round retires an input
+        // for one type while another type keeps it alive
+        vec![Fill, Fill, Sb, Sa, Flush, Compact],
+        vec![Sb, Flush, Fill, Fill, Compact],
+        vec![Sb, Sa, Flush, Fill, Fill, Compact, Compact],
+        vec![Fill, Sb, Sa, Flush, Fill, Compact, Restart, Fill, Fill, Compact],
     ]
 }
 
@@ -64,6 +70,15 @@ pub fn check(tier: &str) -> i32 {
     for c in &cfgs {
         for h in leaves(&alphabet, if tier == "quick" { 3 } else { 4 }) {
             work.push((c.clone(), h, SnapMode::Off));
+        }
+        for h in dedicated() {
+            work.push((c.clone(), h, SnapMode::Off));
+        }
+        if tier != "quick" {
+            // two event types in the exhaustive alphabet
+            for h in leaves(&[Sa, Sb, Fill, Flush, Compact, Restart], 4).into_iter().filter(|h| h.contains(&Sb)) {
+                work.push((c.clone(), h, SnapMode::Off));
+            }
         }
         let mut crash_set = leaves(&alphabet, 2);
         crash_set.extend(deep_histories());
